@@ -389,6 +389,32 @@ func genCleanup(outDir string) (string, error) {
 	fmt.Fprintf(&b, "def otherResolvesBySki : Bool := %s\ndef otherResolvesByAddress : Bool := %s\n", bl(res.otherBySki), bl(res.otherByAddress))
 	fmt.Fprintf(&b, "/-- … another connection S that announced T's device address still resolves by its SKI and now by that address: the map is keyed by the connection -/\n")
 	fmt.Fprintf(&b, "def sharedAddressResolvesBySki : Bool := %s\ndef sharedAddressResolvesByAddress : Bool := %s\n\n", bl(res.sharedBySki), bl(res.sharedByAddress))
+	verdict, clean, err := probeApprovals()
+	if err != nil {
+		return "", fmt.Errorf("pending write approvals: %v", err)
+	}
+	var vr, cr []string
+	vbits, cbits := "", ""
+	for _, r := range verdict {
+		vr = append(vr, fmt.Sprintf("(%s, %s, %s, %s)", bl(r.ski), bl(r.obj), bl(r.ctr), bl(r.taken)))
+		vbits += fmt.Sprint(b2i(r.taken))
+	}
+	for _, r := range clean {
+		cr = append(cr, fmt.Sprintf("(%s, %s)", bl(r[0]), bl(r[1])))
+		cbits += fmt.Sprint(b2i(r[1]))
+	}
+	fmt.Fprintf(&b, "/-- FeatureLocal.ApproveOrDenyWrite against ONE pending write: (verdict message has the same SKI, is of the same connection object,\n    carries the same msgCounter, verdict taken = a result was written) — another SKI implies another object -/\n")
+	fmt.Fprintf(&b, "def approvalVerdict : List (Bool × Bool × Bool × Bool) :=\n  [%s]\n", strings.Join(vr, ",\n   "))
+	fmt.Fprintf(&b, "/-- FeatureLocal.CleanWriteApprovalCaches(ski) with ONE pending write: (same SKI, the pending approval is gone) -/\n")
+	fmt.Fprintf(&b, "def approvalClean : List (Bool × Bool) := [%s]\n\n", strings.Join(cr, ", "))
+	facts = append(facts, "approvalVerdict="+vbits, "approvalClean="+cbits)
+	ewS, ewB, ewD, _, err := probeEntityWindow()
+	if err != nil {
+		return "", fmt.Errorf("teardown inside the entity-removed notification: %v", err)
+	}
+	fmt.Fprintf(&b, "/-- T's connection removed (RemoveRemoteDevice) WHILE T's notification \"entity [1] removed\" is processed, at the EntityChange/Remove\n    event; T held one subscription and one binding from [1]/1. After both returned: (subscription gone, binding gone, device gone) -/\n")
+	fmt.Fprintf(&b, "def entityWindowTeardown : Bool × Bool × Bool := (%s, %s, %s)\n\n", bl(ewS), bl(ewB), bl(ewD))
+	facts = append(facts, fmt.Sprintf("entityWindowTeardown=%d%d%d", b2i(ewS), b2i(ewB), b2i(ewD)))
 	facts = append(facts, fmt.Sprintf("resolve=%d%d%d%d%d%d", b2i(res.goneBySki), b2i(res.goneByAddress), b2i(res.otherBySki), b2i(res.otherByAddress), b2i(res.sharedBySki), b2i(res.sharedByAddress)))
 	fmt.Fprintf(&b, "-- FACTS %s\n", strings.Join(facts, " "))
 	b.WriteString("end Spine.Generated.Cleanup\n")
